@@ -39,21 +39,25 @@ func (e *Exec) concretizeBlobs(m map[string]string) {
 		last    byte
 		isJSON  bool
 		isObj   bool
+		isUint  bool
+		uval    uint64
 	}
 	factsOf := func(ts []*Term) []facts {
 		var qs []*Term
 		for _, x := range ts {
 			str := mkOp("sOfB", SStr, x)
 			qs = append(qs, x, mkOp("=", SBool, x, mkOp("bOfS", SBlob, str)), str,
-				mkOp("blen", SInt, x), mkOp("bfirst", SBV(8), x), mkOp("blast", SBV(8), x), jsonValid(x), xisObj(x))
+				mkOp("blen", SInt, x), mkOp("bfirst", SBV(8), x), mkOp("blast", SBV(8), x), jsonValid(x), xisObj(x),
+				mkUF("jsonUint", SBool, x), mkUF("juint", SBV(64), x))
 		}
 		vals := e.solver.GetValues(qs)
 		out := make([]facts, len(ts))
 		for i := range ts {
-			v := vals[8*i:]
+			v := vals[10*i:]
 			out[i] = facts{abs: strings.TrimSpace(v[0]), isStr: strings.TrimSpace(v[1]) == "true", str: parseSMTString(v[2]),
 				n: int(parseSMTInt(v[3])), first: byte(parseSMTBV(v[4])), last: byte(parseSMTBV(v[5])),
-				isJSON: strings.TrimSpace(v[6]) == "true", isObj: strings.TrimSpace(v[7]) == "true"}
+				isJSON: strings.TrimSpace(v[6]) == "true", isObj: strings.TrimSpace(v[7]) == "true",
+				isUint: strings.TrimSpace(v[8]) == "true", uval: parseSMTBV(v[9])}
 		}
 		return out
 	}
@@ -136,6 +140,14 @@ func (e *Exec) concretizeBlobs(m map[string]string) {
 	// pass 3: JSON-valued and opaque blobs
 	for _, f := range fs {
 		if _, ok := assigned[f.abs]; ok {
+			continue
+		}
+		if f.isUint {
+			assign(f.abs, fmt.Sprintf("%d", f.uval))
+			continue
+		}
+		if f.n > 64 || (f.first == '{' && f.last == '}' && f.n >= 2) {
+			assign(f.abs, synthBlob(f.n, f.first, f.last, len(assigned), used))
 			continue
 		}
 		if f.isJSON {
